@@ -236,6 +236,7 @@ Definition ReadyAll (evl : evlist) (w : world) (e : nat) (en : StateModel.entry)
 
 Lemma inv_clear evl g w w' e en en' sd :
   InvP evl g w -> (2 <= e)%nat -> nth_error (ents (w_st w)) e = Some en -> (is_discarded (e_ign en) = false -> ReadyAll evl w e en) ->
+  (is_discarded (e_ign en) = false -> forall sd0, s_oid (gs en sd0) <> None -> ShapeS (gs en sd0)) ->
   (forall k ob cs, s_oid (gs en sd) = Some (ostr_k k) -> obj_at w sd k = Some ob -> pd evl sd k = false ->
      freshP (gs en sd) ob -> is_discarded (e_ign en) = false -> g_get k (g_of g sd) = Some cs ->
      s_oid (gs en (negb sd)) <> None /\ ProvModel.o_exists ob = true /\ s_hash (gs en sd) = s_shash (gs en sd)) ->
@@ -252,7 +253,7 @@ Lemma inv_clear evl g w w' e en en' sd :
   (forall sd0, x_lg (getx w' e sd0) = x_lg (getx w e sd0)) ->
   InvP evl g w'.
 Proof.
-  intros I He Hn Hready Hjust Hcfg Hprov Hen' Ssbp Hlen Hoth Hcs Hmem Hnow Hlast Htape HJ Hx Hxe.
+  intros I He Hn Hready Hshape Hjust Hcfg Hprov Hen' Ssbp Hlen Hoth Hcs Hmem Hnow Hlast Htape HJ Hx Hxe.
   assert (Hobj: forall sd0 k0, obj_at w' sd0 k0 = obj_at w sd0 k0) by (intros; unfold obj_at; rewrite Hprov; reflexivity).
   pose proof (i_ents _ _ _ I e en He Hn) as EO.
   destruct (i_clke _ _ _ I e en Hn) as (Hmaxo & Hlgo).
@@ -268,6 +269,7 @@ Proof.
   - exact Hoth.
   - exact Hcs.
   - intros Hfl. rewrite Hmem. rewrite <- (sbp_flagged _ _ Ssbp), flagged_clr in Hfl. exact Hfl.
+  - intros Hm. rewrite Hmem in Hm. rewrite <- (sbp_flagged _ _ Ssbp), flagged_clr. exact Hm.
   - exact Hnow.
   - rewrite Hlast. pose proof (i_clk _ _ _ I). lia.
   - rewrite <- (sbp_maxchg _ _ Ssbp). pose proof (maxchg_clr en sd). lia.
@@ -289,4 +291,11 @@ Proof.
     destruct (Bool.bool_dec (is_discarded (e_ign en)) true) as [Ed|Ed].
     + apply (EntOk_clear_disc evl g w w' e en sd EO Ed Hobj).
     + apply Bool.not_true_is_false in Ed. apply (EntOk_clear evl g w w' e en sd EO Hobj); [exact Hxe|exact (Hready Ed)|exact Hjust].
+  - intros sd0 Hoid Hd _. rewrite <- (sbp_gs _ _ sd0 Ssbp) in *. destruct Ssbp as (_ & _ & S3). rewrite <- S3 in Hd.
+    unfold clr in *. rewrite ign_ss in Hd.
+    assert (Hg: exists c, gs (ss en sd (w_chg (gs en sd) (CNum 0))) sd0 = w_chg (gs en sd0) c).
+    { destruct (Bool.bool_dec sd0 sd) as [->|Hne]; [exists (CNum 0); apply gs_ss_same|].
+      assert (sd0 = negb sd) by (destruct sd0, sd; try reflexivity; contradiction). subst sd0. exists (s_chg (gs en (negb sd))).
+      rewrite gs_ss_other. destruct (gs en (negb sd)); reflexivity. }
+    destruct Hg as (c & Hg). rewrite Hg in *. cbn [w_chg s_oid] in Hoid. apply (Hshape Hd sd0 Hoid).
 Qed.
